@@ -121,6 +121,17 @@ def ops_for(t, tier):
     for cn, cand in foreign_candidates(t):
         ops.append(("assign", "p", "bad:" + cn, cand))
         ops.append(("extend", "p", "bad:" + cn, cand))
+    # other argument forms: tuples, NumPy arrays of the property's own element type (accepted), NumPy arrays of
+    # another element type (refused like lists of another type)
+    ops.append(("assign", "p", "tuple", tuple(VALS[t][2])))
+    ops.append(("extend", "p", "tuple", tuple(VALS[t][1])))
+    if t != "text":
+        ops.append(("assign", "p", "np-own", np.array(VALS[t][1])))
+        ops.append(("extend", "p", "np-own", np.array(VALS[t][2])))
+    for u in TYPES:
+        if u != t and u != "text":
+            ops.append(("assign", "p", "bad:np-" + u, np.array([ONE[u], ONE[u]])))
+            ops.append(("extend", "p", "bad:np-" + u, np.array([ONE[u]])))
     ops.append(("clear", "p", "-", None))
     ops.append(("dict-set", "p", "list", VALS[t][2]))
     ops.append(("dict-set", "p", "scalar", ONE[t]))
@@ -215,16 +226,16 @@ def model_step(m, op):
         if p is None:
             return "skip"
     if kind == "assign":
-        if pay is None or (isinstance(pay, list) and len(pay) == 0):
+        if pay is None or (isinstance(pay, (list, tuple)) and len(pay) == 0):
             p[2] = []
             return "ok"
-        vals = pay if isinstance(pay, list) else [pay]
+        vals = list(pay) if isinstance(pay, (list, tuple, np.ndarray)) else [pay]
         if list_type(vals) != p[1]:
             return (TypeError,)
         p[2] = list(vals)
         return "ok"
     if kind == "extend":
-        vals = pay if isinstance(pay, list) else [pay]
+        vals = list(pay) if isinstance(pay, (list, tuple, np.ndarray)) else [pay]
         if list_type(vals) != p[1]:
             return (TypeError,)
         p[2] = p[2] + list(vals)
